@@ -144,6 +144,9 @@ class TrajectorySH:
         memo[id(self)] = result
         shallow_only = ["queue"]
         for k, v in self.__dict__.items():
+            if k == "tracer":  # traces own resources (log files): let them clone themselves
+                setattr(result, k, v.clone())
+                continue
             setattr(result, k, cp.deepcopy(v, memo) if k not in shallow_only else v)
         return result
 
